@@ -659,6 +659,90 @@ func TestVerifC09ShedderFractional(t *testing.T) {
 	c09CountObs(m, obs)
 }
 
+// TestVerifC09ShedderDefaultChecker: the production systemOverloadChecker (real
+// stat.CpuUsage reading, not scripted) with a threshold far above any possible reading:
+// CPU usage is below the threshold during the whole trace, so clause (1) forbids every
+// rejection, whatever the in-flight level.
+func TestVerifC09ShedderDefaultChecker(t *testing.T) {
+	m := vk.New(t, "C09", "production systemOverloadChecker, threshold 2^40 (CPU usage always below it): bursts up to 300 in flight with churn, gaps and drains under the virtual clock; no Allow may reject; flying == 0 at quiescence")
+	defer m.Done()
+	c09Quiet()
+	defer timex.VerifRealClock()
+	r := m.Rand("default-checker")
+	var admitted, rejected, passes, fails int64
+	for idx := 1; idx <= vk.N(20, 400); idx++ {
+		if !m.Only(idx) {
+			continue
+		}
+		bucketMs := []int64{50, 100, 250}[r.Intn(3)]
+		buckets := []int{4, 10, 50}[r.Intn(3)]
+		desc := fmt.Sprintf("case=%d;{\"bucket_ms\":%d,\"buckets\":%d,\"cpu_threshold\":\"2^40\",\"cpu_reading_now\":%d}", idx, bucketMs, buckets, stat.CpuUsage())
+		timex.VerifFakeClock(time.Duration((4_000_000+int64(idx))*bucketMs) * time.Millisecond)
+		sh := NewAdaptiveShedder(WithWindow(time.Duration(bucketMs)*time.Duration(buckets)*time.Millisecond), WithBuckets(buckets), WithCpuThreshold(1<<40))
+		var outst []Promise
+		bad := false
+		arrive := func() {
+			p, err := sh.Allow()
+			if err != nil {
+				rejected++
+				if !bad {
+					m.Violate("C09:shedder:rejected-while-cool:production-checker", desc, "Allow rejected with %d in flight although stat.CpuUsage()=%d is below the configured threshold 2^40", len(outst), stat.CpuUsage())
+					bad = true
+				}
+				return
+			}
+			admitted++
+			outst = append(outst, p)
+		}
+		finish := func() {
+			if len(outst) == 0 {
+				return
+			}
+			j := r.Intn(len(outst))
+			p := outst[j]
+			outst = append(outst[:j], outst[j+1:]...)
+			if r.Intn(10) == 0 {
+				p.Fail()
+				fails++
+			} else {
+				p.Pass()
+				passes++
+			}
+		}
+		for step := 0; step < 1500 && !bad; step++ {
+			switch r.Intn(6) {
+			case 0:
+				for i, n := 0, 1+r.Intn(60); i < n && len(outst) < 300; i++ {
+					arrive()
+				}
+			case 1, 2:
+				finish()
+				arrive()
+			case 3:
+				for i, n := 0, r.Intn(40); i < n; i++ {
+					finish()
+				}
+			default:
+				timex.VerifAdvance(time.Duration(1+r.Intn(int(bucketMs))) * time.Millisecond)
+			}
+		}
+		for len(outst) > 0 {
+			finish()
+		}
+		if f := c09Flying(sh); f != 0 && !bad {
+			m.Violate("C09:shedder:flying-nonzero-at-quiescence", desc, "all admitted requests reported but flying=%d", f)
+		}
+		m.Case(vk.Digest(desc, idx), admitted > 0)
+		if m.WantSample() && idx%7 == 1 {
+			m.Sample(map[string]any{"scenario": desc, "admitted_so_far": admitted, "rejected_so_far": rejected})
+		}
+	}
+	m.Count("allow_admitted", admitted)
+	m.Count("allow_rejected", rejected)
+	m.Count("pass", passes)
+	m.Count("fail", fails)
+}
+
 // TestVerifC09ShedderNop: the disabled shedder (nopshedder.go) never rejects.
 func TestVerifC09ShedderNop(t *testing.T) {
 	m := vk.New(t, "C09", "shedder created while shedding is disabled: Allow admits under any scripted CPU reading; Pass/Fail are accepted")
